@@ -127,6 +127,8 @@ func (source SourceGeopackage) ReadFeatures(features chan<- processing.Feature) 
 					c = append(c, v)
 				case string:
 					c = append(c, v)
+				case bool:
+					c = append(c, v)
 				case nil:
 					c = append(c, v)
 				default:
